@@ -120,7 +120,7 @@ GAPS = {
     'C06': ['_find_unit / simplify_unit / SI prefixes: bounded exhaustive tier only (regex + eval are outside the subset)', 'fractional powers in PhysicalUnit.__pow__', 'has_val_mismatch', 'the numeric content of unit_library.ini'],
     'C13': ['Subjac.set_col for CSR storage (scipy tocsc/tocsr conversions), the COO/OMCOO wrappers that pass data/row/col to _set_coo_col, dense storage, and _CheckingJacobian.set_col (which sub-jacobian gets which slice of the column): bounded exhaustive tier only (COOSubjac._set_coo_col, CSCSubjac.set_col and DiagonalSubjac.set_col are proved; the counter-model search of _set_coo_col is too slow for z3, so a broken body shows up through the boosted native sampling / bounded tier rather than a refutation)', 'directional derivative checks (directional_fd_fwd / directional_fwd_rev branches)', '_MagnitudeData bookkeeping values', 'deriv_display text rendering', 'which arrays check_partials/check_totals pass in as J_fwd/J_rev/J_fd'],
     'C27': ['types=list (element-wise values check)', 'set_function preprocessing', 'declare() default validation and argument checks', 'update()/undeclare()/set()', 'deprecation warning text'],
-    'C22': ['Driver._compute_con_viol (linear-first concatenation, exception fallback)', 'OptimizerVector.update_from_model (assumed to deliver model values)', 'multi-constraint vectors: one constraint slice [a,b) of a larger vector is verified, other slices are covered by the frame only'],
+    'C22': ['Driver._compute_con_viol: the exception fallback (zeros) and what the model run does (the call order, the scaling mode passed on and the linear-first concatenation are proved)', 'OptimizerVector.update_from_model (assumed to deliver model values)', 'multi-constraint vectors: one constraint slice [a,b) of a larger vector is verified, other slices are covered by the frame only'],
     'C20': ['unit part of total_scaler/total_adder (System._setup_driver_units, add_design_var/add_response normalisation)', '_TotalJacInfo._identify_unit_active_vars (which names get a unit factor)', 'Autoscaler._compute_scaled_bounds slice layout loop', 'OptimizerVector.update_from_model / create_from_model', 'Driver._get_voi_val / _set_design_var unit branches'],
     'C09': ['BroydenSolver._iter_initialize (array dtype conversions outside the subset)', 'ScipyKrylov / PETScKrylov delegate to external iterations', 'ArmijoGoldsteinLS / BoundsEnforceLS inner iteration counts', 'exceptions raised by subsystems inside _single_iteration'],
     'C33': ['DefaultVector._initialize_data beyond two 1-d variables (the loop is unrolled for two), scaling-array slices of sub-vectors', 'Vector.set_var / __getitem__ name lookup and indexer path', 'non-contiguous / distributed vectors'],
